@@ -564,6 +564,22 @@ class Interp:
             return Agg("struct", ty, [])
         if k == "fn":
             return FnItem(parse_callee_path(c[1]))
+        if k == "alloc" and c[1] in getattr(self.prog, "alloc_static", {}):
+            # a `static` item: one value per process, initialised by its body on first use
+            sname = self.prog.alloc_static[c[1]]
+            if not hasattr(self, "statics"):
+                self.statics = {}
+            if sname not in self.statics:
+                body = None
+                for cname, b in self.prog.consts.items():
+                    if path_segments(cname)[-1] == sname.split("::")[-1]:
+                        body = b
+                        break
+                if body is None:
+                    raise Inconclusive("static %s has no body in the dump" % sname)
+                v = self.eval_const(frame, body[1]) if isinstance(body, tuple) else self.run_fn(body, [])
+                self.statics[sname] = Cell(v)
+            return Ref(CellLoc(self.statics[sname]), True)
         if k == "alloc":
             data = self.prog.allocs.get(c[1])
             if data is None:
